@@ -27,6 +27,11 @@ type Channel struct {
 	Name   string  `json:"name"`
 	Tracks []Track `json:"tracks"`
 	Auth   bool    `json:"auth"`
+	// Shifted: the uploaded decode times are 3 segment durations ahead of the sequence numbers, so the receiver decides on a
+	// renumbering when the master track has delivered two segments. Which uploads precede that decision depends on the order,
+	// so for such a channel only the order-independent facts are judged (every upload accepted, one channel object,
+	// every track registered, no race).
+	Shifted bool `json:"shifted,omitempty"`
 }
 
 type Case struct {
@@ -41,7 +46,7 @@ func genCase(t *rapid.T) Case {
 	c := Case{M: rapid.IntRange(2, 6).Draw(t, "M"), Streams: rapid.Bool().Draw(t, "streams"), RepCfg: rapid.Bool().Draw(t, "repcfg"), Repeats: rapid.IntRange(2, 6).Draw(t, "repeats")}
 	nch := rapid.IntRange(1, 4).Draw(t, "nch")
 	for ci := 0; ci < nch; ci++ {
-		ch := Channel{Name: fmt.Sprintf("ch%d", ci), Auth: rapid.Bool().Draw(t, "auth")}
+		ch := Channel{Name: fmt.Sprintf("ch%d", ci), Auth: rapid.Bool().Draw(t, "auth"), Shifted: rapid.IntRange(0, 3).Draw(t, "shifted") == 0}
 		nt := rapid.IntRange(2, 8).Draw(t, "ntracks")
 		for ti := 0; ti < nt; ti++ {
 			kind := "video"
@@ -94,6 +99,13 @@ func normalMPD(path string) (map[string]string, error) {
 		}
 	}
 	return out, nil
+}
+
+func shiftOf(ch Channel) uint64 {
+	if ch.Shifted {
+		return 3
+	}
+	return 0
 }
 
 type upload struct {
@@ -239,7 +251,7 @@ func runOnce(c Case, storage string, concurrent bool) (*hx.Violation, map[string
 				ch, tr, ti := ch, tr, ti
 				seq := uint32(50 + k)
 				d := dur(tr.Kind)
-				body, err := rx.MediaSeg(tr.Kind, seq, uint64(seq)*uint64(d), d, byte(ti+1), true)
+				body, err := rx.MediaSeg(tr.Kind, seq, (uint64(seq)+shiftOf(ch))*uint64(d), d, byte(ti+1), true)
 				if err != nil {
 					return hx.V("harness", "%v", err), nil
 				}
@@ -266,7 +278,7 @@ func runOnce(c Case, storage string, concurrent bool) (*hx.Violation, map[string
 		for ti, tr := range ch.Tracks {
 			seq := uint32(50 + c.M)
 			d := dur(tr.Kind)
-			body, err := rx.MediaSeg(tr.Kind, seq, uint64(seq)*uint64(d), d, byte(ti+1), true)
+			body, err := rx.MediaSeg(tr.Kind, seq, (uint64(seq)+shiftOf(ch))*uint64(d), d, byte(ti+1), true)
 			if err != nil {
 				return hx.V("harness", "%v", err), nil
 			}
@@ -279,6 +291,9 @@ func runOnce(c Case, storage string, concurrent bool) (*hx.Violation, map[string
 	mpds := map[string]map[string]string{}
 	for _, ch := range c.Channels {
 		r.R.VerifQuiesce(ch.Name)
+		if ch.Shifted {
+			continue
+		}
 		// every accepted upload stored under its own track with its own bytes
 		for _, tr := range ch.Tracks {
 			tk := rx.Kinds[tr.Kind]
@@ -360,6 +375,12 @@ func TestC19(t *testing.T) {
 		for _, ch := range c.Channels {
 			if ch.Auth {
 				cls = append(cls, "auth")
+				break
+			}
+		}
+		for _, ch := range c.Channels {
+			if ch.Shifted {
+				cls = append(cls, "shifted-channel")
 				break
 			}
 		}
